@@ -69,6 +69,7 @@ def run(idx: Index, rep: Report, tier: str):
     check_redundant_gate_cancellation(idx, rep)
     check_gate_equality(idx, rep, sets)
     check_pass_semantics(idx, rep, tier)
+    check_simplify(idx, rep)
     check_clifford_angles(idx, rep)
     rep.stats.update({"alias_" + k: v for k, v in an.stats.items()})
 
@@ -588,6 +589,72 @@ def check_pass_semantics(idx: Index, rep: Report, tier: str):
                    reason=f"{len(bad)} sequence(s) fail, e.g. {bad[0][0]}: {bad[0][1]}" if bad else "")
         if not bad:
             rep.floor(f"{pname}: sequences actually rewritten", changed, 5)
+
+
+def check_simplify(idx: Index, rep: Report):
+    """`simplify` (function and method) chains the three passes until nothing changes: folded, with the repository's own Circuit and Gate classes, on
+    circuits holding rotations of several small sizes, for thresholds below, at and above the default.  The result must equal the input up to a
+    phase and up to the *caller's* threshold per dropped gate, and the input circuit of the function form must be left as it was."""
+    import math
+    from ..consteval import FuncVal
+    from ..rules import numsem
+    from ..rules.circuitsem import make_folder, module_resolver
+    rule = "K9.simplify-threshold"
+    Circ = module_resolver(idx, CIRCUIT)("Circuit")
+    GateCls = module_resolver(idx, GATE)("Gate")
+    if Circ is None or GateCls is None:
+        raise AnalysisError("Circuit / Gate classes not resolvable")
+
+    def folder():
+        fo = make_folder(idx, CIRCUIT, ctors={"Gate": None})
+        fo.env["np.pi"] = math.pi
+        fo.env["pi"] = math.pi
+        return fo
+
+    def G(name, target, control=None, parameter=""):
+        fo = make_folder(idx, GATE, ctors={"Gate": None})
+        fo.env["pi"] = math.pi
+        return fo.instantiate(GateCls, [name, target], {"control": control, "parameter": parameter, "is_variational": False})
+
+    def mk(spec):
+        return folder().instantiate(Circ, [[G(*a, **k) for a, k in spec]], {"n_qubits": None})
+
+    def sig(c):
+        return [(g.fields["name"], tuple(g.fields["target"]), tuple(g.fields["control"] or ()), g.fields["parameter"]) for g in c.fields["_gates"]]
+    specs = {
+        "rotations of 5e-4 and 2e-3 between other gates": [(("H", 0), {}), (("RZ", 0), {"parameter": 5e-4}), (("CNOT", 1, 0), {}), (("RX", 1), {"parameter": 2e-3}), (("RX", 1), {"parameter": 0.4})],
+        "rotations that merge into a small one": [(("RY", 0), {"parameter": 0.3}), (("RY", 0), {"parameter": -0.2996}), (("X", 1), {}), (("CRZ", 1, 0), {"parameter": 3e-5})],
+        "cancelling pairs around a small rotation": [(("H", 0), {}), (("RZ", 0), {"parameter": 2e-4}), (("H", 0), {}), (("X", 1), {}), (("X", 1), {})],
+    }
+    fn = idx.function(f"{CIRCUIT}::simplify")
+    n = 0
+    for label, spec in specs.items():
+        for thr in (0., 1e-5, 1e-4, 1e-3, 1e-2):
+            for form in ("function", "method"):
+                c = mk(spec)
+                before = sig(c)
+                try:
+                    if form == "function":
+                        out = folder().call_funcval(FuncVal(fn.node, home=CIRCUIT), [c], {"param_threshold": thr})
+                    else:
+                        cv = c.cls_val
+                        folder().call_funcval(FuncVal(cv.methods["simplify"], bound_self=c, home=cv.method_home.get("simplify", cv.home)), [], {"param_threshold": thr})
+                        out = c
+                except Undecidable as e:
+                    raise AnalysisError(f"simplify ({form}) not foldable: {e}")
+                except Raised as e:
+                    rep.violation(rule, fn, fn.node, text=f"{form} simplify, {label}, threshold {thr:g}", what="simplification applies to every circuit", reason=f"raises {e.exc_type}")
+                    continue
+                ref = [Rec("Gate", dict(name=a[0], target=[a[1]], control=[a[2]] if len(a) > 2 else None, parameter=k.get("parameter", ""), is_variational=False)) for a, k in spec]
+                nq = 2
+                dropped = max(0, len(before) - len(out.fields["_gates"]))
+                d = numsem.distance_up_to_phase(numsem.circuit_unitary(out.fields["_gates"], nq), numsem.circuit_unitary(ref, nq))
+                n += 1
+                ok = d <= 1e-9 + dropped * thr and (form == "method" or sig(c) == before)
+                rep.decide(ok, rule, fn, fn.node, text=f"{form} simplify, {label}, threshold {thr:g}: {len(before)} -> {len(out.fields['_gates'])} gates",
+                           what="the simplified circuit has the action of the input up to a phase and up to the caller's threshold per dropped gate; the function form leaves its input alone",
+                           reason=f"result {sig(out)} differs from the input by {d:.3g} (allowed {1e-9 + dropped * thr:.3g})" if d > 1e-9 + dropped * thr else "the input circuit was modified")
+    rep.floor("simplify folds (circuits x thresholds x forms)", n, 30)
 
 
 # ---------------------------------------------------------------------------------------------------
